@@ -53,6 +53,14 @@ CHECKS = {
         text="Proved in Lean 4: every getter, len, iteration, all() and the Measurement-local twins return the Spec one-liner over the stored contents on the index path and on the scan path. Tied to the code by differential runs of histories.",
         note=TB + "Guard: measurement argument != '' (known finding). CSV record counting is checked at the file level (C04).",
         tech="Lean 4 refinement proof + history-level differential correspondence", ref="DESIGN.md 5/C07"),
+    "C08": dict(
+        text="Proved in Lean 4: normalising to UTC keeps the instant, so the stored value depends on the instant only; a time comparison in a query is the integer comparison of instants at microsecond resolution; any rounding of microsecond instants to a grid of >= 2^20 ticks per second is strictly monotone and invertible (so comparisons and conversions through the index's float keys agree with the instants — that binary64 is such a grid for 1700-2240 is the trusted IEEE fact); sorted results are a stable sort; an updated time is the instant the argument denotes. The real code is run in a subprocess per process time zone {UTC, America/Los_Angeles, Australia/Lord_Howe, Asia/Kathmandu} on instants at range ends, epoch, 2038, 2106, DST transitions, adjacent microseconds and ties, presented in many offsets or as naive local time, through insert / update static+callable / reopen / time queries / get_timestamps on both paths, against the instant-only Model and Spec; naive values in DST gaps and folds against zoneinfo.",
+        note=TB + "The tz database, datetime.timestamp()/fromtimestamp(), astimezone and ISO text are parameters with stated laws (trusted stdlib), exercised not verified.",
+        tech="Lean 4 proof (instant arithmetic, float-grid monotonicity) + multi-timezone differential correspondence", ref="DESIGN.md 5/C08"),
+    "C14": dict(
+        text="Over acceptance predicates translated from the isinstance / is None expressions of validate_tags, validate_fields and the setters, and a table recording that each API entry point (constructor, setters, insert, static update arguments, update callables) validates each slot before the store — both regenerated from the source — proved by kernel evaluation over all ten modelled Python types and six slots: a value is accepted iff it is well-typed for its slot (bool is not a number), every entry point validates every slot, hence nothing ill-typed is stored. The real code is run on the full battery entry x slot x type (several values per type, both storages) and the types of everything all() returns are checked.",
+        note=TB + "Entry-point coverage is a table of syntactic patterns (validator call precedes the store); Python's isinstance semantics (bool subclass of int) is restated in the translator.",
+        tech="Lean 4 proof over extracted validators (decide over the finite type x slot table) + exhaustive battery on the real code", ref="DESIGN.md 5/C14"),
     "C09": dict(
         text="Proved in Lean 4 for every query of any depth with arbitrary user predicates / map functions / regex predicates and every point: evaluation (model of queries.py with Python's exceptions explicit) never raises and equals the documented meaning; ~, &, | are boolean NOT, AND, OR. The model is compared with the real query objects on ~770 expressions x 360 points exhaustively.",
         note=TB + "re is a parameter (String -> Bool); user functions pure and total where the property requires no exception.",
